@@ -183,6 +183,15 @@ pub fn atoms(tier: Tier) -> Vec<E> {
             for k in [100.5, -0.5, 2.5e9] {
                 out.push(bin(op, col(c), fl(k)));
             }
+            // integer-valued float constants equal to stored values (and to the column's extremes)
+            let vals = col_ints(c);
+            let small: Vec<i64> = vals.iter().cloned().filter(|v| v.abs() < (1 << 50)).collect();
+            let mut eqs = vec![*small.iter().min().unwrap(), small[small.len() / 2], *small.iter().max().unwrap()];
+            eqs.dedup();
+            for k in eqs {
+                out.push(bin(op, col(c), fl(k as f64)));
+                out.push(bin(op, fl(k as f64), col(c)));
+            }
         }
         // constant on the left
         for op in CMP {
@@ -219,7 +228,7 @@ pub fn atoms(tier: Tier) -> Vec<E> {
         out.push(bin(op, col("absent"), E::Str("x".into())));
     }
     // column against column
-    for (x, y) in [("a", "w"), ("a", "ni"), ("ni", "w"), ("f", "nf"), ("a", "f"), ("ni", "nf"), ("d", "p"), ("d", "ns"), ("p", "ns"), ("a", "id"), ("a", "absent")] {
+    for (x, y) in [("a", "w"), ("a", "ni"), ("ni", "w"), ("f", "nf"), ("a", "f"), ("ni", "nf"), ("d", "p"), ("d", "ns"), ("p", "ns"), ("a", "id"), ("a", "absent"), ("a", "a"), ("w", "w"), ("ni", "ni"), ("f", "f"), ("nf", "nf"), ("d", "d"), ("ns", "ns")] {
         for op in CMP {
             out.push(bin(op, col(x), col(y)));
         }
